@@ -26,7 +26,7 @@ def run(ctx):
     h = codec.H()
     rng = random.Random(ctx.seed + 6)
     thorough = ctx.tier == 'thorough' or ctx.escalate
-    n = 6000 if thorough else 1200
+    n = 40000 if thorough else 1200
     ctx.coverage['rule'] = ('grids generated over the Haystack value domain (every kind in metadata, column metadata and cells; all code points in '
                             'text; boundary floats, non-finite numbers, all mapped zones; nesting depth <= 3; versions 2.0 and 3.0), single and as lists; '
                             'a grid is non-trivial when it has at least one non-null value; distinct by dumped text')
